@@ -260,6 +260,15 @@ class Grammar:
     def literals(self):
         return set(re.findall(r"'((?:[^'\\]|\\.)+)'", self.text))
 
+    def parser_literals(self):
+        """literals used in parser rules (lower-case rule names): the implicit tokens ANTLR lists in literalNames"""
+        out = set()
+        for name, alts in self.rules.items():
+            if name[0].islower():
+                for (alt, _) in alts:
+                    out |= set(re.findall(r"'((?:[^'\\]|\\.)+)'", alt))
+        return out
+
 
 class Program:
     def __init__(self, repo=None, overrides=None):
